@@ -290,7 +290,11 @@ def generate_name(name_context: str, types: TypeData) -> str:
     if not types.get_by_name(name):
         return name
 
-    raise ValueError(f"Unable to generate name for {name_context}")
+    # Another type already has that name (`Foo.barBaz` and `FooBar.baz`): number it.
+    counter = 2
+    while types.get_by_name(f"{name}{counter}"):
+        counter += 1
+    return f"{name}{counter}"
 
 
 def generate_literal_type(
